@@ -50,6 +50,9 @@ fi
 if ! (cd "$VERIF_ROOT/mc" && go build -overlay "$OV" -o "$root/bin/omniwitness" github.com/transparency-dev/witness/cmd/omniwitness) 2>"$root/build.err"; then
   echo "  BUILD-FAILED (binary of the mutant)"; head -5 "$root/build.err" | sed 's/^/      /'; exit 2
 fi
+if ! (cd "$VERIF_ROOT/mc" && go build -overlay "$OV" -o "$root/bin/feedbastion" github.com/transparency-dev/witness/cmd/feedbastion) 2>"$root/build.err"; then
+  echo "  BUILD-FAILED (feedbastion of the mutant)"; head -5 "$root/build.err" | sed 's/^/      /'; exit 2
+fi
 for id in "$@"; do
   if [ "$id" = "C05" ]; then (cd "$VERIF_ROOT/mc" && go build -race -overlay "$OV" -o "$root/bin/verifmc-race" ./cmd/verifmc) 2>/dev/null; fi
   out=$(VERIF_ROOT="$root" VERIF_REPO="$wt" VERIF_SCRATCH="$root" timeout --signal=KILL ${MUTANT_CAP:-1500} "$root/bin/verifmc" check "$id" "${MUTANT_TIER:-quick}" 2>&1); code=$?
